@@ -57,6 +57,9 @@ fn run_one(v: &Value, out: &mut Vec<String>) {
     sim.kill_latency = v["kill_latency"].as_u64().unwrap_or(0);
     sim.overshoot = v["overshoot"].as_u64().unwrap_or(0);
     sim.clock_step = v["clock_step"].as_u64().unwrap_or(0);
+    if let Some(j) = v["rt_jump"].as_array() {
+        sim.rt_jump = Some((j[0].as_u64().unwrap(), j[1].as_i64().unwrap()));
+    }
     sim.sleep_slice = v["sleep_slice"].as_u64().unwrap_or(0);
     sim.sleep_eintr_left = v["sleep_eintr_max"].as_u64().unwrap_or(0) as u32;
     if let Some(l) = v["eintr_at"].as_array() {
@@ -71,8 +74,62 @@ fn run_one(v: &Value, out: &mut Vec<String>) {
     unsafe { psim::PSIM = Some(sim) };
     let sim = psim::psim().unwrap();
 
-    // "other_thread": the handle is used from a thread that did not create it
-    let drive = |p: Popen| -> Option<Popen> {
+    // the calls are made on a thread of their own, so that a call that never returns can be abandoned.
+    // "other_thread": that thread is not the one that created the handle (otherwise it passes for the creator)
+    psim::STUCK.store(false, std::sync::atomic::Ordering::SeqCst);
+    let (tx, rx) = std::sync::mpsc::channel();
+    let v2 = v.clone();
+    let as_creator = !v["other_thread"].as_bool().unwrap_or(false);
+    psim::DRIVER_TID.store(-1, std::sync::atomic::Ordering::SeqCst);
+    let jh = std::thread::spawn(move || {
+        psim::DRIVER_TID.store(unsafe { libc::syscall(libc::SYS_gettid) } as i64, std::sync::atomic::Ordering::SeqCst);
+        if as_creator {
+            psim::psim().unwrap().creator_tid = unsafe { libc::syscall(libc::SYS_gettid) } as i64;
+        }
+        let _ = tx.send(drive_ops(&v2, p));
+    });
+    let mut popen: Option<Popen> = None;
+    loop {
+        match rx.recv_timeout(Duration::from_millis(5)) {
+            Ok(r) => {
+                popen = r;
+                let _ = jh.join();
+                break;
+            }
+            Err(_) => {
+                if psim::STUCK.load(std::sync::atomic::Ordering::SeqCst) {
+                    break; // the thread stays where it is, for good
+                }
+            }
+        }
+    }
+    psim::DRIVER_TID.store(0, std::sync::atomic::Ordering::SeqCst);
+    let fin = format!("{:?}", sim.st);
+    let drift = sim.script_drift;
+    sim.log(json!({"e":"end","st":fin,"drift":drift}));
+    unsafe {
+        EPOCH = 2_000_000_000_000 + (EPOCH + 1_000_000_000) % 1_000_000_000_000;
+    }
+    out.append(&mut sim.trace);
+    if !psim::STUCK.load(std::sync::atomic::Ordering::SeqCst) {
+        unsafe { psim::PSIM = None };
+    } else {
+        // (the abandoned thread still stands inside the old simulator: leave that one alone, the next run gets a new one)
+        unsafe { std::mem::forget(psim::PSIM.take()) };
+    }
+    // dispose of the real child with raw system calls
+    unsafe {
+        let mut st = 0;
+        simk::raw::kill(real_pid, 9);
+        simk::raw::wait4(real_pid, &mut st, 0);
+    }
+    if let Some(mut p) = popen.take() {
+        p.detach();
+    }
+}
+
+fn drive_ops(v: &Value, p: Popen) -> Option<Popen> {
+    {
         let sim = psim::psim().unwrap();
     let mut popen = Some(p);
         for op in v["ops"].as_array().unwrap() {
@@ -134,33 +191,26 @@ fn run_one(v: &Value, out: &mut Vec<String>) {
             sim.script_point(b'K');
             sim.sys_in_call = 0;
             sim.log(json!({"e":"api","op":"drop","d":tpair(0),"n":0,"now":tpair(sim.now)}));
-            let r = catch_unwind(AssertUnwindSafe(|| drop(popen.take())));
+            // "drop_in_panic": the handle goes out of scope while its owner unwinds from a panic
+            let in_panic = v["drop_in_panic"].as_bool().unwrap_or(false);
+            let r = if in_panic {
+                let hook = std::panic::take_hook();
+                std::panic::set_hook(Box::new(|_| {}));
+                let taken = popen.take();
+                let r = catch_unwind(AssertUnwindSafe(move || {
+                    let _held = taken;
+                    panic!("the owner of the handle panics");
+                }));
+                std::panic::set_hook(hook);
+                // (the panic itself is expected; what counts is whether the drop got through)
+                if r.is_err() { Ok(()) } else { Err(()) }
+            } else {
+                catch_unwind(AssertUnwindSafe(|| drop(popen.take()))).map_err(|_| ())
+            };
             let res = if r.is_ok() { json!({"k":"ok","v":0}) } else { json!({"k":"panic","v":0}) };
             sim.log(json!({"e":"apiret","op":"drop","res":res,"now":tpair(sim.now),"nsys":sim.sys_in_call}));
         }
         popen
-    };
-    let mut popen = if v["other_thread"].as_bool().unwrap_or(false) {
-        std::thread::scope(|s| s.spawn(|| drive(p)).join().unwrap())
-    } else {
-        drive(p)
-    };
-    let fin = format!("{:?}", sim.st);
-    let drift = sim.script_drift;
-    sim.log(json!({"e":"end","st":fin,"drift":drift}));
-    unsafe {
-        EPOCH = 2_000_000_000_000 + (EPOCH + 1_000_000_000) % 1_000_000_000_000;
-    }
-    out.append(&mut sim.trace);
-    unsafe { psim::PSIM = None };
-    // dispose of the real child with raw system calls
-    unsafe {
-        let mut st = 0;
-        simk::raw::kill(real_pid, 9);
-        simk::raw::wait4(real_pid, &mut st, 0);
-    }
-    if let Some(mut p) = popen.take() {
-        p.detach();
     }
 }
 
